@@ -13,7 +13,7 @@ RULE = ('Evaluation = one pair of adjacent reported bases. Groups: for consecuti
         'percentile x 1-3 separation bins x all row orders; engineered tie-at-the-look-back-cut scenes (simultaneous hits of several ceilometers, an outlier in the time step split by the cut). Non-trivial = pair closer than 2*min_sep; distinct = '
         'hash of (rows, parameters, level, pair index).')
 ASSUMPTIONS = ['groups with a re-merge (final ncomp < raw) or with exclusion active are outside the layer clause and are only counted']
-REQUIRED = ['fam:sepprobe', 'sepprobe_below_threshold_merged', 'merge', 'chained_merges', 'split_raw_eq_final', 'gt1_sep_bin', 'merge_with_exclusion',
+REQUIRED = ['global_base_height_settings_differ', 'fam:sepprobe', 'sepprobe_below_threshold_merged', 'merge', 'chained_merges', 'split_raw_eq_final', 'gt1_sep_bin', 'merge_with_exclusion',
             'split_lookback_lt100_coincident_stamps'] + \
            ['split_lookback_lt100_' + o for o in scenes.ORDERS]
 SIZES = {'quick': dict(generic=200, chain=260, bimodal=520, tiecut=160), 'thorough': dict(generic=5000, chain=5000, bimodal=9000, tiecut=3000)}
@@ -51,6 +51,11 @@ def plan(tier, seed):
 
 def check(desc):
     case = pipeline.materialise(desc)
+    if desc['i'] % 6 == 0 and desc['fam'] in ('bimodal', 'tiecut', 'chain'):
+        # the global dictionary holds other base-height settings; the per-call dict names the packaged values
+        case['prm']['glob'].update({'BASE_LVL_LOOKBACK_PERC': 35, 'BASE_LVL_HEIGHT_PERC': 60})
+        if desc['fam'] == 'bimodal':
+            case['prm']['call'].update({'BASE_LVL_LOOKBACK_PERC': 100, 'BASE_LVL_HEIGHT_PERC': 5})
     run = pipeline.execute(case, msgs=False)
     res = {'evals': 0, 'nontrivial': [], 'counters': {'runs': 1}, 'case': case, 'viol': []}
     if run.exc is not None:
@@ -80,6 +85,8 @@ def check(desc):
             tags.add('split_lookback_lt100_coincident_stamps')
     if desc['fam'] == 'sepprobe' and ch.n_groups == 1 and ch.n_slices == 2:
         tags.add('sepprobe_below_threshold_merged')
+    if case['prm']['glob']:
+        tags.add('global_base_height_settings_differ')
     res['counters'].update({'group_pairs': n1, 'layer_pairs': n2, 'gmm_fits_observed': len(run.rec.of('best_gmm'))})
     res['viol'] = [v for v in viol if v['prop'] == 'C06'][:20]
     res['tags'] = sorted(tags) + ['fam:' + desc['fam']]
